@@ -16,6 +16,7 @@ pub fn streams() -> Vec<Stream> {
     vec![
         Stream { name: "C03.sort", gen: gen_sort, imp: imp_sort, oracle: oracle_sort },
         Stream { name: "C03.reserve", gen: gen_reserve, imp: imp_reserve, oracle: oracle_reserve },
+        Stream { name: "C03.multi", gen: gen_multi, imp: imp_multi, oracle: oracle_multi },
     ]
 }
 
@@ -926,4 +927,188 @@ fn conflicting(rng: &mut Rng, c: Claim) -> Claim {
         Claim::Att(w, i, wr) => Claim::Att(w, i, if wr { rng.chance(1, 2) } else { true }),
         Claim::Port(w, k, _) => Claim::Port(w, k, rng.chance(1, 2)),
     }
+}
+
+// ------------------------------------------------------------------ C03.multi: several ticks on ONE scheduler
+//
+// "Within a tick": a scheduler object lives across ticks (Engine keeps one) and may hold several open
+// transactions. Each tick's admission must be the greedy independent set of THAT tick's candidates only —
+// nothing accepted in an earlier (finalized) tick or in another open transaction may block or admit.
+// Line: `kind mode T  (n cand…)×T`, cand as in C03.reserve. mode: seq = tx ids 1..T one after another,
+// each finalized before the next; same = one tx id re-used for every tick (finalized in between);
+// inter = all T transactions open at once, enqueues round-robin, then drain+reserve per tx, finalize last.
+
+fn parse_multi(t: &mut Toks) -> Result<(SchedulerKind, String, Vec<Vec<PCand>>), String> {
+    let kind = kind_of(t.next()?)?;
+    let mode = t.next()?.to_string();
+    if !matches!(mode.as_str(), "seq" | "same" | "inter") {
+        return Err(format!("bad mode {mode}"));
+    }
+    let ticks = t.num()?;
+    let mut all = Vec::new();
+    for _ in 0..ticks {
+        let n = t.num()?;
+        let mut cs = Vec::new();
+        for _ in 0..n {
+            let scope = t.id()?;
+            let rule_id = t.id()?;
+            let compact = u32::try_from(t.num()?).map_err(|_| "compact rule exceeds u32".to_string())?;
+            let mask = t.num()?;
+            let fp = parse_fp(t, mask)?;
+            cs.push(PCand { scope, rule_id, compact, fp });
+        }
+        all.push(cs);
+    }
+    if !t.done() {
+        return Err("trailing tokens".into());
+    }
+    Ok((kind, mode, all))
+}
+
+/// Runs the ticks on one real scheduler; per tick (drained candidates, raw reserve decisions).
+fn real_multi(kind: SchedulerKind, mode: &str, ticks: &[Vec<PCand>]) -> Option<Vec<(Vec<RawCandidate>, Vec<bool>)>> {
+    let raws: Vec<Vec<RawCandidate>> = ticks.iter().map(|cs| raw_of(cs)).collect();
+    let mode = mode.to_string();
+    std::panic::catch_unwind(std::panic::AssertUnwindSafe(move || {
+        let mut s = RawScheduler::new(kind, 1);
+        let mut out = Vec::new();
+        if mode == "inter" {
+            let longest = raws.iter().map(Vec::len).max().unwrap_or(0);
+            for j in 0..longest {
+                for (i, cs) in raws.iter().enumerate() {
+                    if let Some(c) = cs.get(j) {
+                        s.set_tx(i as u64 + 1);
+                        s.enqueue(c.clone());
+                    }
+                }
+            }
+            // drain and reserve every open transaction before any is finalized
+            for i in 0..raws.len() {
+                s.set_tx(i as u64 + 1);
+                let d = s.drain();
+                let r = s.reserve_all(&d);
+                out.push((d, r));
+            }
+            for i in 0..raws.len() {
+                s.set_tx(i as u64 + 1);
+                s.finalize();
+            }
+        } else {
+            for (i, cs) in raws.iter().enumerate() {
+                s.set_tx(if mode == "same" { 1 } else { i as u64 + 1 });
+                for c in cs {
+                    s.enqueue(c.clone());
+                }
+                let d = s.drain();
+                let r = s.reserve_all(&d);
+                s.finalize();
+                out.push((d, r));
+            }
+        }
+        out
+    }))
+    .ok()
+}
+
+fn imp_multi(t: &mut Toks) -> Result<String, String> {
+    let (kind, mode, ticks) = parse_multi(t)?;
+    let Some(res) = real_multi(kind, &mode, &ticks) else { return Ok("panic".into()) };
+    let parts: Vec<String> = res
+        .iter()
+        .map(|(d, r)| {
+            let raw_s: String = r.iter().map(|b| if *b { 'A' } else { 'R' }).collect();
+            format!("drain {} ; raw {}", tags_str(d), if raw_s.is_empty() { "-".to_string() } else { raw_s })
+        })
+        .collect();
+    Ok(parts.join(" | "))
+}
+
+fn oracle_multi(t: &mut Toks, _tier: Tier) -> Result<OracleOut, String> {
+    let (kind, mode, ticks) = parse_multi(t)?;
+    let mut o = OracleOut::default();
+    o.tags.push(format!("multi:{mode}"));
+    o.tags.push(format!("ticks:{}", ticks.len()));
+    let legacy = matches!(kind, SchedulerKind::Legacy);
+    let kn = if legacy { "legacy" } else { "radix" };
+    let Some(res) = real_multi(kind, &mode, &ticks) else {
+        o.fails.push((format!("C03.multi.panic.{kn}"), "scheduler panicked on a multi-tick sequence".into()));
+        return Ok(o);
+    };
+    let mut cross = false;
+    for (i, (cs, (d, raw))) in ticks.iter().zip(res.iter()).enumerate() {
+        // each tick alone on a FRESH scheduler is the reference (C03.reserve decides that one)
+        let fresh = real_multi(kind, "seq", std::slice::from_ref(cs));
+        let order: Vec<usize> = d.iter().map(|c| c.tag as usize).collect();
+        let pure: Vec<bool> = ref_greedy(cs, &order, legacy && !masks_sound(cs, &order)).iter().map(|r| r.0).collect();
+        if let Some(f) = fresh {
+            let (fd, fr) = &f[0];
+            let ftags: Vec<u64> = fd.iter().map(|c| c.tag).collect();
+            let dtags: Vec<u64> = d.iter().map(|c| c.tag).collect();
+            if ftags != dtags {
+                o.fails.push((format!("C03.multi.drain-depends-on-history.{kn}.{mode}"), format!("tick {i}: drained order differs from the same tick on a fresh scheduler")));
+            }
+            if fr != raw {
+                o.fails.push((format!("C03.multi.admission-depends-on-history.{kn}.{mode}"), format!("tick {i}: accept/reject bits {:?} differ from the same tick on a fresh scheduler {:?}", raw, fr)));
+            }
+        }
+        if *raw != pure {
+            let pos = raw.iter().zip(&pure).position(|(a, b)| a != b).unwrap_or(0);
+            let what = if raw[pos] { "accepted a candidate that conflicts with an earlier accepted one of its tick" } else { "rejected a candidate that conflicts with no earlier accepted candidate of its own tick" };
+            o.fails.push((format!("C03.multi.not-greedy-within-tick.{kn}.{mode}"), format!("tick {i}: {what} (position {pos})")));
+        }
+        if raw.iter().any(|b| !*b) {
+            o.tags.push("rejection".into());
+        }
+        // does an earlier tick hold a claim that conflicts with an accepted candidate of this tick?
+        if i > 0 {
+            for (k, c) in d.iter().enumerate() {
+                if raw.get(k) == Some(&true) {
+                    let me = &cs[c.tag as usize].fp;
+                    if ticks[..i].iter().flatten().any(|p| ref_conflict(me, &p.fp)) {
+                        cross = true;
+                    }
+                }
+            }
+        }
+    }
+    if cross {
+        o.tags.push("cross-tick-overlap".into());
+    }
+    o.nontrivial = ticks.len() > 1 && cross;
+    Ok(o)
+}
+
+fn gen_multi(rng: &mut Rng, tier: Tier) -> Vec<String> {
+    let atoms = atomic_claims();
+    let n_cases = if tier == Tier::Thorough { 1500 } else { 150 };
+    let mut out = Vec::new();
+    for case in 0..n_cases {
+        let kind = if case % 2 == 0 { "radix" } else { "legacy" };
+        let mode = *rng.pick(&["seq", "seq", "same", "inter"]);
+        let ticks = rng.range(2, 4) as usize;
+        let mut line = format!("{kind} {mode} {ticks}");
+        // a small pool of claims re-used across ticks, so later ticks touch what earlier ticks claimed
+        let pool: Vec<Claim> = (0..rng.range(1, 3)).map(|_| *rng.pick(&atoms)).collect();
+        for _ in 0..ticks {
+            let n = rng.range(1, 4) as usize;
+            let mut fps = Vec::new();
+            for _ in 0..n {
+                let mut cl: Vec<Claim> = Vec::new();
+                if rng.range(0, 3) > 0 {
+                    cl.push(*rng.pick(&pool));
+                }
+                if rng.range(0, 2) == 0 {
+                    cl.push(*rng.pick(&atoms));
+                }
+                fps.push(fp_of(&cl, pick_mask(rng, true)));
+            }
+            let sh = rng.range(0, 1) == 1;
+            let l = reserve_line(kind, &fps, rng, sh);
+            // reserve_line starts with "<kind> <n> …": drop the kind token
+            line.push(' ');
+            line.push_str(l.splitn(2, ' ').nth(1).unwrap_or(""));
+        }
+        out.push(line);
+    }
+    out
 }
